@@ -12,8 +12,6 @@ Variable serial : N.
 Variable Hip_rt : forall a, wf_bytes a -> length a = 16%nat -> o_parse_ip o (o_print_ip o a) = Some a.
 Variable Hip_nil : o_parse_ip o [] = None.
 Variable Hip_nosep : forall a, contains 44 (o_print_ip o a) = false.
-Variable Hlow_dot : forall a b, to_lower o (a ++ 46 :: b) = to_lower o a ++ 46 :: to_lower o b.
-Variable Hlow_nodot : forall a, contains 46 a = false -> contains 46 (to_lower o a) = false.
 
 Lemma parse_marshal_norm : forall r,
   wf_recordb o r = true -> finding_class o serial r = false ->
@@ -43,13 +41,13 @@ Qed.
 Theorem roundtrip_outside_finding : forall v2 nornet l r,
   wf_line o serial l -> parse_line o serial l = Ok r -> finding_class o serial r = false ->
   exists r', parse_line o serial (marshal o r) = Ok r' /\
-             convert o v2 nornet r' = convert o v2 nornet r /\
+             convert v2 nornet r' = convert v2 nornet r /\
              marshal o r' = marshal o r.
 Proof.
   intros v2 nornet l r W P F. unfold wf_line, wf_lineb in W. rewrite P in W.
   apply andb_true_iff in W. destruct W as [W S].
   exists (norm serial r). split; [apply parse_marshal_norm; assumption|]. split.
-  - apply convert_norm; assumption.
+  - apply (convert_norm o serial); assumption.
   - apply marshal_norm; assumption.
 Qed.
 
@@ -74,9 +72,9 @@ Theorem rangepoint_text_key : forall v2 nornet lmap ip ml null locid,
      else 44 :: print_dec (if is4 ip then (ml + 160) mod 256 else ml) ++ 44 :: loctext locid) /\
   (is4 ip = true -> 96 <= ml -> (ml + 160) mod 256 = ml - 96) /\
   exists r', parse_line o serial (marshal o (RRangePoint lmap ip ml null locid)) = Ok r' /\
-    convert o v2 nornet r' =
+    convert v2 nornet r' =
       [([0; 0; 0; 33] ++ lmap ++ ip ++ [if null then 0 else ml], if null then [] else locid)] /\
-    convert o v2 nornet r' = convert o v2 nornet (RRangePoint lmap ip ml null locid).
+    convert v2 nornet r' = convert v2 nornet (RRangePoint lmap ip ml null locid).
 Proof using o serial Hip_rt Hip_nosep.
   intros v2 nornet lmap ip ml null locid W. split; [|split].
   - unfold marshal, line_of, SEPC. destruct null; cbn [app joinb]; rewrite ?app_nil_r; reflexivity.
@@ -88,10 +86,22 @@ Qed.
 
 End Roundtrip.
 
+(* the statement with the codec serial quantified after the library premises (Properties/C09.v) *)
+Lemma roundtrip_stmt : forall o,
+  (forall a, wf_bytes a -> length a = 16%nat -> o_parse_ip o (o_print_ip o a) = Some a) ->
+  o_parse_ip o [] = None ->
+  (forall a, contains 44 (o_print_ip o a) = false) ->
+  forall serial v2 nornet l r,
+  wf_line o serial l -> parse_line o serial l = Ok r -> finding_class o serial r = false ->
+  exists r', parse_line o serial (marshal o r) = Ok r' /\
+             convert v2 nornet r' = convert v2 nornet r /\
+             marshal o r' = marshal o r.
+Proof. intros o H1 H2 H3 serial. exact (roundtrip_outside_finding o serial H1 H2 H3). Qed.
+
 (* ------------------------------------------------------------------ the recorded findings are real *)
 (* an oracle that is enough for lines without addresses and without bytes >= 0x80 *)
 Definition o_plain : toracles :=
-  mkTO (fun _ => false) (fun _ => None) (fun _ => []) (fun _ => None) (fun _ _ => []) (fun r => r).
+  mkTO (fun _ => false) (fun _ => None) (fun _ => []) (fun _ => None) (fun _ _ => []).
 
 (* Zexample.com,a.ns.example.com,dns.example.com,0,7200,1800,604800,120,120,,   with Codec.Serial = 7 *)
 Definition f12_line : bytes :=
@@ -107,7 +117,7 @@ Definition refutes (serial : N) (l : bytes) : Prop :=
   exists r r', wf_line o_plain serial l /\ parse_line o_plain serial l = Ok r /\
     finding_class o_plain serial r = true /\
     parse_line o_plain serial (marshal o_plain r) = Ok r' /\
-    convert o_plain false false r' <> convert o_plain false false r.
+    convert false false r' <> convert false false r.
 
 Lemma f12_refuted : refutes 7 f12_line /\ f12_class 7 (match parse_line o_plain 7 f12_line with Ok r => r | Err _ => RIpmap [] [] end) = true.
 Proof.
@@ -155,7 +165,7 @@ Definition o_ex : toracles :=
   mkTO (fun _ => false)
        (fun s => if bytes_eqb s ex_ip_text then Some ex_ip else None)
        (fun a => if bytes_eqb a ex_ip then ex_ip_text else [])
-       (fun _ => None) (fun _ _ => []) (fun r => r).
+       (fun _ => None) (fun _ _ => []).
 (* +*.a\054b.Example.com.,2001:db8::1,300,,xy *)
 Definition ex_line : bytes :=
   [43;42;46;97;92;48;53;52;98;46;69;120;97;109;112;108;101;46;99;111;109;46;44] ++ ex_ip_text ++ [44;51;48;48;44;44;120;121].
@@ -165,8 +175,8 @@ Lemma roundtrip_example :
   exists r, parse_line o_ex 7 ex_line = Ok r /\ finding_class o_ex 7 r = false /\
     marshal o_ex r <> ex_line /\
     exists r', parse_line o_ex 7 (marshal o_ex r) = Ok r' /\
-      convert o_ex true false r' = convert o_ex true false r /\ marshal o_ex r' = marshal o_ex r /\
-      convert o_ex true false r <> [].
+      convert true false r' = convert true false r /\ marshal o_ex r' = marshal o_ex r /\
+      convert true false r <> [].
 Proof.
   split; [vm_compute; reflexivity|].
   destruct (parse_line o_ex 7 ex_line) as [r|] eqn:E; [|vm_compute in E; discriminate E].
